@@ -95,6 +95,8 @@ def local_defs(func, inl=None):
             if enclosing(x, ('ForStmt', 'WhileStmt', 'DoStmt', 'CXXForRangeStmt')) is not None and False:
                 continue
             init = kids(x)[-1]
+            if int_type_info(t) is None and any(c.get('kind') in ('CallExpr', 'CXXMemberCallExpr', 'CXXOperatorCallExpr') and (call_name(c) or '') not in ('data', 'c_str', 'get') for c in walk(init)):
+                continue     # a pointer obtained from a container observer (front(), begin(), ...) is not stable across mutations
             def _observer(c):
                 # a const member function without arguments (get_width(), size(), ...)
                 if c.get('kind') != 'CXXMemberCallExpr' or call_args(c):
